@@ -5,6 +5,7 @@ import (
 	"errors"
 
 	"github.com/aergoio/aergo-lib/db"
+	"github.com/aergoio/aergo/v2/config"
 	"github.com/aergoio/aergo/v2/consensus"
 	"github.com/aergoio/aergo/v2/pkg/component"
 	"github.com/aergoio/aergo/v2/state"
@@ -145,8 +146,52 @@ func (u *vfUniverse) newBlock(no uint64, prev *types.Block, ntx int, root []byte
 	return blk
 }
 
-// connect makes blk the new best block the way chainProcessor.execute does after executing it.
+// vfHardfork: all forks active from genesis (receipts are stored in the V2 format).
+var vfHardfork = &config.HardforkConfig{}
+
+// vfReceipts: one SUCCESS receipt per tx of blk, as blockExecutor leaves them in the block state.
+func vfReceipts(blk *types.Block) *types.Receipts {
+	rs := &types.Receipts{}
+	rs.SetHardFork(vfHardfork, blk.BlockNo())
+	var l []*types.Receipt
+	for _, tx := range blk.GetBody().GetTxs() {
+		l = append(l, &types.Receipt{ContractAddress: make([]byte, 33), Status: "SUCCESS", TxHash: tx.GetHash()})
+	}
+	rs.Set(l)
+	return rs
+}
+
+// vfWriteReceipts: what executeBlock does with the receipts of an executed block (real writeReceiptsAndOperations).
+func vfWriteReceipts(cs *ChainService, blk *types.Block) {
+	cs.cdb.writeReceiptsAndOperations(blk, vfReceipts(blk), "")
+}
+
+// vfCheckReceipts: the receipts of blk are stored under (hash, no) and carry the tx hashes in order; for a block
+// without txs nothing is stored.
+func vfCheckReceipts(ob string, cs *ChainService, blk *types.Block) {
+	txs := blk.GetBody().GetTxs()
+	exists := cs.cdb.checkExistReceipts(blk.GetHash(), blk.BlockNo())
+	vf.Assert(exists == (len(txs) > 0), ob)
+	if !exists {
+		return
+	}
+	rs, err := cs.cdb.getReceipts(blk.GetHash(), blk.BlockNo(), vfHardfork)
+	vf.Assert(err == nil && rs != nil, ob)
+	if err != nil || rs == nil {
+		return
+	}
+	vf.Assert(len(rs.Get()) == len(txs), ob)
+	for i, r := range rs.Get() {
+		if i < len(txs) {
+			vf.Assert(bytes.Equal(r.GetTxHash(), txs[i].GetHash()), ob)
+		}
+	}
+}
+
+// connect makes blk the new best block the way executeBlock + chainProcessor.execute do after executing it:
+// receipts first, then the connectToChain transaction.
 func (u *vfUniverse) connect(blk *types.Block) error {
+	vfWriteReceipts(u.cs, blk)
 	cp := &chainProcessor{ChainService: u.cs, block: blk, isMainChain: true}
 	_, err := cp.connectToChain(blk)
 	return err
@@ -219,7 +264,11 @@ func (u *vfUniverse) populate() {
 
 // vfShape enumerates (a, f, b): main length 1..maxA, fork height 0..a-1, side branch longer than the rest of main by 1..maxExtra.
 func vfShape(maxA, maxExtra int) (a, f, b int) {
-	a = 1 + vf.Choice("a", maxA)
+	if fa := vf.Param("fixA", 0); fa > 0 {
+		a = fa // the thorough tier splits the shapes over several jobs (one job = one worker)
+	} else {
+		a = 1 + vf.Choice("a", maxA)
+	}
 	f = vf.Choice("f", a)
 	b = a - f + 1 + vf.Choice("extra", maxExtra)
 	return
